@@ -11,7 +11,7 @@ BUDGET = {'quick': 100, 'thorough': 900}
 RULE = ('(a) scripted server peer: the two server-to-client handshake messages (control address on the data connection, runtime '
         'info on the control connection) cut at an enumerated byte offset with FIN or RST, control connection refused; (b) real '
         'server: unknown context id, server SIGKILLed / SIGTERMed at an enumerated line of its handling of this client; (c) process '
-        'kind: child killed at an enumerated line before it reported its identity, spawn failure; one-shot and persistent classes; '
+        'kind: child killed at an enumerated line before it reported its identity, spawn failure; thread kind: the newborn thread failing at each delivery point before it reported; one-shot and persistent classes; '
         '(d) the server process worker (spawn_server): its child killed at every line of its start-up; '
         'plus seeded random schedules.')
 ASSUMPTIONS = ['hang bound: the constructor must return or raise within 600 simulated seconds (it has no timeout parameter)']
@@ -58,6 +58,16 @@ class Run:
         if case.get('census'):
             C.install_census(sim, extra_roles=('child-main:ProcessWorker._run',))
         C.install_fault(sim, case.get('fault'))
+        if case['mode'] == 'thread-child-crash':
+            # the newborn thread of a thread worker fails at the k-th delivery point of its start-up code, before it has reported to
+            # the constructor: e.g. the WorkerTerminatedError of a terminate() aimed at a *finished* thread worker whose recycled
+            # thread identifier the new thread has inherited (PyThreadState_SetAsyncExc goes by identifier)
+            def crash(sim_, t, code=None, line=None):
+                sim_.fault('exception-in-thread-child-before-it-reported')
+                from pyworkers.worker import WorkerTerminatedError
+                t.pending_exc = WorkerTerminatedError
+            sim.add_trigger(at='dp', qualname='ThreadWorker._run', occurrence=case.get('k', 1), action=crash, label='thread-child-crash',
+                            pred=lambda t: True)
         if case['mode'] == 'spawn-fails':
             st = {'n': 0}
 
@@ -267,6 +277,9 @@ def plan(ctx):
                 cases.append(mk_case(ctx, kind, 'scripted', len(cases), stage=2, cut=k, end=end, keep_data_open=True, tag='scripted'))
         for mode in ('unknown-ctx', 'connect-refused'):
             cases.append(mk_case(ctx, kind, mode, len(cases), tag='modes'))
+    for kind in ('thread', 'pthread'):
+        for k in range(1, 9):
+            cases.append(mk_case(ctx, kind, 'thread-child-crash', len(cases), k=k, tag='thread-child-crash'))
     for kind in ('process', 'pprocess', 'remote', 'premote'):
         for si in (1, 2):
             cases.append(mk_case(ctx, kind, 'spawn-fails', len(cases), spawn_index=si if lib.is_remote(kind) else 1, tag='spawn'))
